@@ -74,4 +74,5 @@ def main(tier):
     chk.run("R-ATTRBACKEND", V.attrbackend, cx.repo, floor=6)
     chk.run("R-LEAFCHECK", SY.leafcheck, cx.repo, floor=2)
     chk.run("R-INTDIGITS", P.intdigits, cx.repo, floor=1)
+    chk.run("R-BOUNDMEMO", BR.boundmemo, cx.repo, floor=6)
     return chk.finish()
